@@ -2,7 +2,7 @@
    Only statements, `exact <lemma>` and Print Assumptions live here.  In every theorem [cs] is an arbitrary list of
    chunks — any number of chunks of any sizes — and the in-memory value is the Spec function of [concat cs]. *)
 From Coq Require Import String ZArith List Bool Lia Sorting.Sorted.
-From BNP Require Import Base.Prims Model.C11 Proofs.C11 Proofs.C11_rechunk Proofs.C11_groupby Proofs.C11_graph Proofs.C11_pipeline Gen.C11 Bridge.C11.
+From BNP Require Import Base.Prims Model.C11 Proofs.C11 Proofs.C11_rechunk Proofs.C11_groupby Proofs.C11_graph Proofs.C11_pipeline Proofs.C11_spec Corr.C11 Proofs.C11_link Gen.C11 Bridge.C11.
 Import ListNotations.
 Open Scope Z_scope.
 
@@ -143,6 +143,92 @@ Theorem C11_mean_axis0_partial : forall a b, length a = length b ->
 Proof. exact red_mean_equal_lengths. Qed.
 Print Assumptions C11_mean_axis0_partial.
 
+(* T9 streamable without reduction: a row-local function (f [] = [], f (a ++ b) = f a ++ f b) mapped over the chunks
+   and concatenated is the function of the whole data; for a per-row function the chunk sizes are kept too. *)
+Theorem C11_streamable_map_chunked : forall (A B : Type) (f : list A -> list B),
+  f [] = [] -> (forall a b, f (a ++ b) = f a ++ f b) ->
+  forall cs, concat (stream_map f cs) = f (concat cs).
+Proof. exact @streamable_map_chunked. Qed.
+Print Assumptions C11_streamable_map_chunked.
+
+Theorem C11_streamable_rows_chunked : forall (A B : Type) (g : A -> B) (cs : list (list A)),
+  concat (stream_map (map g) cs) = map g (concat cs)
+  /\ map (@length B) (stream_map (map g) cs) = map (@length A) cs.
+Proof. exact @streamable_rows_chunked. Qed.
+Print Assumptions C11_streamable_rows_chunked.
+
+(* T10 genome walk: for data that visits the chromosomes in genome order (any may be absent), the walk over the
+   maximal runs hands every chromosome exactly its own entries (empty for absent ones). *)
+Theorem C11_genome_walk : forall (order : list Z) (d : list (Z * iv)), NoDup order -> ordered order d ->
+  walk order (runs d) = map (fun nm => ivs_of nm d) order.
+Proof. exact (@walk_runs iv). Qed.
+Print Assumptions C11_genome_walk.
+
+(* T11 END TO END: every modelled streamed pipeline (pileup, mask, pileup sum, histogram, (histogram,sum), values
+   under windows, mean over axis 0 of those) — chunked interval streams -> group-by/join -> genome walk -> graph
+   pull machine -> concatenate / reduce — returns the in-memory dense meaning of the concatenated data, for every
+   genome, every chunking into non-empty chunks, data in genome order.  [pipeline_guard] is True for pileup, mask,
+   pileup sum, histogram, (histogram,sum) and values; the reductions of the values need: mean(axis=0) equal column
+   counts (none with the repaired mean_reduction), sum(axis=0) windows on every chromosome with equal column counts,
+   np.sum a single chromosome — each refuted without its guard. *)
+Theorem C11_pipeline_spec : forall p order sizes (csa csb : list (list (Z * iv))),
+  NoDup order -> length order = length sizes -> (0 < length sizes)%nat ->
+  csa <> [] -> csb <> [] -> Forall (fun c => c <> []) csa -> Forall (fun c => c <> []) csb ->
+  ordered order (concat csa) -> ordered order (concat csb) ->
+  pipeline_guard p order sizes (concat csa) (concat csb) ->
+  run_pipeline p order sizes csa csb = Some (spec_pipeline p order sizes (concat csa) (concat csb)).
+Proof. exact pipeline_spec_current. Qed.
+Print Assumptions C11_pipeline_spec.
+
+Theorem C11_pipeline_spec_fixed : forall p order sizes (csa csb : list (list (Z * iv))),
+  NoDup order -> length order = length sizes -> (0 < length sizes)%nat ->
+  csa <> [] -> csb <> [] -> Forall (fun c => c <> []) csa -> Forall (fun c => c <> []) csb ->
+  ordered order (concat csa) -> ordered order (concat csb) ->
+  pipeline_guard_fixed p order sizes (concat csa) (concat csb) ->
+  run_pipeline_with red_mean_fixed p order sizes csa csb
+  = Some (spec_pipeline p order sizes (concat csa) (concat csb)).
+Proof. exact pipeline_spec_fixed. Qed.
+Print Assumptions C11_pipeline_spec_fixed.
+
+Theorem C11_pipeline_mean_refuted :
+  exists order sizes (csa csb : list (list (Z * iv))),
+    NoDup order /\ length order = length sizes /\ ordered order (concat csa) /\ ordered order (concat csb)
+    /\ run_pipeline PValuesMean0 order sizes csa csb = Some GErr
+    /\ spec_pipeline PValuesMean0 order sizes (concat csa) (concat csb) <> GErr.
+Proof. exact pipeline_mean_refuted. Qed.
+Print Assumptions C11_pipeline_mean_refuted.
+
+Theorem C11_pipeline_sum_refuted :
+  exists order sizes (csa csb : list (list (Z * iv))),
+    NoDup order /\ length order = length sizes /\ ordered order (concat csa) /\ ordered order (concat csb)
+    /\ run_pipeline PValuesSum order sizes csa csb = Some (GL [4])
+    /\ spec_pipeline PValuesSum order sizes (concat csa) (concat csb) = GL [2; 2]
+    /\ run_pipeline PValuesSum0 [0; 1] [4; 4] [[(0, (0, 2)); (1, (1, 3))]] [[(0, (0, 2))]] = Some GErr
+    /\ spec_pipeline PValuesSum0 [0; 1] [4; 4] [(0, (0, 2)); (1, (1, 3))] [(0, (0, 2))] = GL [1; 1].
+Proof. exact pipeline_sum_refuted. Qed.
+Print Assumptions C11_pipeline_sum_refuted.
+
+(* T12 link theorems: on every correspondence case, agreement with the model (model_ok) gives the property (spec_ok);
+   the extra hypotheses are the case's well-formedness and those parts of spec_ok that compare two observations
+   with each other (in-memory float / histogram edges / in-memory pipeline results). *)
+Theorem C11_rechunk_link : forall r, rechunk_wellformed r = true -> rechunk_model_ok r = true -> rechunk_spec_ok r = true.
+Proof. exact rechunk_link. Qed.
+Print Assumptions C11_rechunk_link.
+
+Theorem C11_flat_link : forall f, chunks_wellformed f = true ->
+  Forall (Forall (fun v => 0 <= v)) (f_starts f) -> contiguous (map e_gid (f_data f)) ->
+  flat_obs_only f = true -> flat_model_ok f = true -> flat_spec_ok f = true.
+Proof. exact flat_link. Qed.
+Print Assumptions C11_flat_link.
+
+Theorem C11_gen_link : forall g, gen_wellformed g = true ->
+  ordered (gen_order g) (concat (g_a g)) -> ordered (gen_order g) (concat (g_b g)) ->
+  (forall p s m, In (p, s, m) (g_runs g) ->
+     pipeline_guard p (gen_order g) (g_sizes g) (concat (g_a g)) (concat (g_b g))) ->
+  gen_mem_ok g = true -> gen_model_ok g = true -> gen_spec_ok g = true.
+Proof. exact gen_link. Qed.
+Print Assumptions C11_gen_link.
+
 (* Source tie: the loop conditions, slice bounds, counter updates, component-wise additions, change-point comparison,
    shortcut test, group bounds and buffer-index tests regenerated on this run from /repo (Gen/C11.v, written by
    translate/gen_c11.py from streams/chunk_entries.py, io/parser.py, streams/reductions.py, computation_graph.py and
@@ -241,3 +327,23 @@ Example C11_nonvacuous_graph :
   /\ val g 7 0 = Some (GZ 7) /\ val g 7 1 = Some (GZ 3) /\ val g 7 2 = None
   /\ (2 <= S (max_stream_len g))%nat.
 Proof. vm_compute. repeat split; try reflexivity. lia. Qed.
+
+(* k = 1 (possible since the window-of-one repair), a streamable function without reduction, and the hypotheses of
+   C11_pipeline_spec: data in genome order with an absent chromosome, windows with equal column counts *)
+Example C11_nonvacuous_phase3 :
+  stream_kmer_counts 1 [[[0; 1; 1]]; [[3]; [1; 2]]] = Some [1; 3; 1; 1]
+  /\ stream_map spec_revcomp [[[0; 1; 2; 3]; [0]]; [[1; 1; 2; 3; 0]]] = [[[0; 1; 2; 3]; [3]]; [[3; 0; 1; 2; 2]]]
+  /\ ordered [0; 1; 2] [(0, (1, 4)); (0, (2, 6)); (2, (0, 3))]
+  /\ pipeline_guard PValuesMean0 [0; 1; 2] [6; 5; 4] [(0, (1, 4)); (0, (2, 6)); (2, (0, 3))] [(0, (1, 3)); (2, (1, 3))]
+  /\ run_pipeline PValuesMean0 [0; 1; 2] [6; 5; 4] [[(0, (1, 4))]; [(0, (2, 6)); (2, (0, 3))]] [[(0, (1, 3)); (2, (1, 3))]]
+     = Some (GSN [(2, 2); (3, 2)]).
+Proof.
+  split; [vm_compute; reflexivity|]. split; [vm_compute; reflexivity|].
+  split; [exists [(0, (1, 4)); (0, (2, 6))], [(2, (0, 3))]; repeat split; [repeat constructor|];
+          exists [], [(2, (0, 3))]; repeat split; [constructor|];
+          exists [(2, (0, 3))], []; repeat split; repeat constructor|].
+  split; [|vm_compute; reflexivity].
+  exists 2%nat. unfold equal_columns. cbn [all_rows combine map].
+  constructor; [right; vm_compute; reflexivity|]. constructor; [left; vm_compute; reflexivity|].
+  constructor; [right; vm_compute; reflexivity|constructor].
+Qed.
